@@ -158,6 +158,15 @@ class Arr:
     def sym_truth(self, it):
         raise PyRaise(ValueError("The truth value of an array with more than one element is ambiguous"))
 
+    def sym_contains(self, it, x):
+        """x in array: some row holds the value (an uninterpreted membership predicate of the array's content)"""
+        if not is_scalar(x) or isinstance(x, Opaque):
+            raise EngineError("membership test of a non-scalar in a generic array")
+        z = to_z(x)
+        f = z3.Function(f"member[{self.space.name},{_key(to_z(self.e))},{_key(_zb(self.mask))}]", z.sort(), B)
+        it.ctx.axiom(z3.Implies(_zb(self.mask), f(to_z(self.e))))
+        return SV(f(z))
+
     def sym_any(self, it):
         return any_(it, self)
 
